@@ -334,6 +334,8 @@ def lifting_sites(U, rep):
             construct='batch of %d symbolic states / actions' % B)
 
 
+TRACE_INTROSPECTION = ('is_concrete', 'concrete_or_error', 'ensure_compile_time_eval', 'get_aval', 'find_top_trace', 'trace_state_clean',
+                       'cur_sublevel', 'concrete_aval', 'is_constant_dim', 'eval_context')
 COLLECTIVES = ('psum', 'pmean', 'pmax', 'pmin', 'all_gather', 'axis_index', 'ppermute', 'all_to_all')
 
 
@@ -343,10 +345,21 @@ def no_channels(U, rep):
   for _, (modname, cname) in envs.items():
     scope |= {q for q, f in U.funcs.items() if f.mod.name == modname}
   scope |= {q for q, f in U.funcs.items() if f.mod.name in ('brax.envs.base',)}
-  ncoll = naxis = nprng = 0
+  ncoll = naxis = nprng = ntrace = 0
   for q in sorted(scope):
     f = U.funcs[q]
     for n in own_nodes(f.node):
+      # the code does not ask HOW it is being evaluated: a value is a tracer under vmap / jit and concrete when the member
+      # is evaluated alone, so whatever is decided on that question is decided differently for the batch and for the member
+      if isinstance(n, (ast.Attribute, ast.Name)) and not isinstance(getattr(n, 'ctx', None), ast.Store):
+        d = dotted(n)
+        full = '.'.join(f.mod.alias[d[0]].split('.') + d[1:]) if d and d[0] in f.mod.alias else '.'.join(d or [])
+        last = (d or [''])[-1]
+        if last.endswith('Tracer') or last in TRACE_INTROSPECTION and (full or '').startswith('jax'):
+          ntrace += 1
+          rep.fail('R7.3', 'trace|%s|%s' % (q, last), 'mapped code inspects its evaluation mode (`%s`): a member evaluated alone '
+                   '(concrete values) and the same member inside vmap / jit (tracers) take different paths' % '.'.join(d),
+                   where=f.where(n), construct=ast.unparse(n)[:120])
       if isinstance(n, ast.Call):
         name = call_name(n, f.mod) or ''
         short = name.rsplit('.', 1)[-1]
@@ -373,6 +386,7 @@ def no_channels(U, rep):
   rep.check(ncoll == 0, 'R7.3', 'no collectives / axis names in mapped code', 'collectives found', construct='%d functions scanned' % len(scope))
   rep.check(naxis == 0, 'R7.3', 'no caller relies on the ignored axis parameter of safe_norm / normalize', 'axis callers found')
   rep.check(nprng == 0, 'R7.3', 'PRNG keys are consumed with the implementation they came with', 'key re-wrapping found')
+  rep.check(ntrace == 0, 'R7.3', 'mapped code never asks whether its values are tracers or concrete', 'trace introspection found')
   # the positive example: normalize's own pass-through must still be visible to the scanner
   f = U.func('brax.math.normalize')
   seen = any(isinstance(n, ast.Call) and any(k.arg == 'axis' for k in n.keywords) and (dotted(n.func) or [''])[-1] == 'safe_norm'
